@@ -49,7 +49,7 @@ var vtypes = []*vtype{
 			return func() string { return fmt.Sprint(*p) }
 		},
 		expect: func(t []string) string { return fmt.Sprint(pBool(lastOf(t))) }},
-	{name: "string", valid: "ev", cmd: [2]string{"s1", "s2"}, dflt: [2]string{"", "dflt"},
+	{name: "string", valid: "ev", cmd: [2]string{"s1", " s2 "}, dflt: [2]string{"", "dflt"},
 		decl: func(cmd *cli.Cmd, asOpt bool, name, env string, nz bool, sbu *bool) func() string {
 			v := map[bool]string{false: "", true: "dflt"}[nz]
 			var p *string
@@ -85,7 +85,7 @@ var vtypes = []*vtype{
 			return func() string { return fmt.Sprint(*p) }
 		},
 		expect: func(t []string) string { return fmt.Sprint(pFlt(lastOf(t))) }},
-	{name: "strings", multi: true, valid: "ev", cmd: [2]string{"s1", "s2"}, dflt: [2]string{"[]", "[d1 d2]"},
+	{name: "strings", multi: true, valid: "ev", cmd: [2]string{"s1", " s2 "}, dflt: [2]string{`[]`, `["d1" "d2"]`},
 		decl: func(cmd *cli.Cmd, asOpt bool, name, env string, nz bool, sbu *bool) func() string {
 			var v []string
 			if nz {
@@ -97,9 +97,9 @@ var vtypes = []*vtype{
 			} else {
 				p = cmd.Strings(cli.StringsArg{Name: name, EnvVar: env, Value: v, SetByUser: sbu})
 			}
-			return func() string { return fmt.Sprint(*p) }
+			return func() string { return fmt.Sprintf("%q", *p) }
 		},
-		expect: func(t []string) string { return fmt.Sprint(t) }},
+		expect: func(t []string) string { return fmt.Sprintf("%q", t) }},
 	{name: "ints", multi: true, valid: "42", invalid: "zz", cmd: [2]string{"5", "6"}, dflt: [2]string{"[]", "[7 8]"},
 		decl: func(cmd *cli.Cmd, asOpt bool, name, env string, nz bool, sbu *bool) func() string {
 			var v []int
@@ -145,7 +145,7 @@ var vtypes = []*vtype{
 }
 
 // states of one environment variable
-var envStates = []string{"unset", "empty", "valid", "invalid", "valid-list-blanks", "invalid-elem"}
+var envStates = []string{"unset", "empty", "valid", "invalid", "valid-list-blanks", "invalid-elem", "list-empty-item"}
 
 // envValue returns (set, raw value, tokens when valid) for a state.
 func envValue(t *vtype, state string, which int) (set bool, raw string, tokens []string, ok bool) {
@@ -176,6 +176,15 @@ func envValue(t *vtype, state string, which int) (set bool, raw string, tokens [
 			return true, "", nil, false
 		}
 		return true, v + "," + t.invalid, nil, false
+	case "list-empty-item":
+		// "v," : two items, the second empty - a valid list of strings, an invalid list of numbers
+		if !t.multi {
+			return true, "", nil, false
+		}
+		if t.name == "strings" {
+			return true, v + ",", []string{v, ""}, true
+		}
+		return true, v + ",", nil, false
 	}
 	panic(state)
 }
@@ -188,6 +197,8 @@ func applicable(t *vtype, state string) bool {
 		return t.multi
 	case "invalid-elem":
 		return t.multi && t.invalid != ""
+	case "list-empty-item":
+		return t.multi
 	}
 	return true
 }
